@@ -58,6 +58,8 @@ struct FnDir {
     /// of the function that matches `anchor` (so that contract text can name a local of the source
     /// without fixing its spelling)
     binds: Vec<(String, String)>,
+    /// `@@noloops`: this contract (variant) is for a loop-free body: any loop is a lost anchor
+    noloops: bool,
     /// E20 `@@caught ~text => call`: the expression `AssertUnwindSafe(async { BODY }).catch_unwind()`
     /// whose BODY contains `text` (user code run under catch_unwind) is replaced by `call`, a declared
     /// oracle stand-in; a `.then_yield()` is erased like `.await` (E3)
@@ -276,6 +278,7 @@ fn parse_template(path: &Path, nodes: &mut Vec<Node>) {
                         }
                         "sig" => d.sig = Some(rest),
                         "allow_empty" => d.allow_empty = true,
+                        "noloops" => d.noloops = true,
                         "bind" => {
                             let (n, a) = rest.split_once(char::is_whitespace).unwrap_or_else(|| die(&format!("{sctx}: @@bind $name anchor")));
                             d.binds.push((n.trim().to_string(), a.trim().to_string()));
@@ -2173,6 +2176,9 @@ fn check_used(ed: &Ed, d: &FnDir, ctx: &str) {
         if !ed.inline_then_used.contains(k) {
             die(&format!("{ctx}: @@inline_then {k}: closure#{k} is not the argument of a `.then(|| ..)` call any more"));
         }
+    }
+    if d.noloops && ed.loop_idx > 0 {
+        die(&format!("{ctx}: @@noloops: the body has {} loops (this contract is for a loop-free body)", ed.loop_idx));
     }
     for k in d.loops.keys() {
         if !ed.loops_used.contains(k) {
